@@ -39,8 +39,10 @@
 (*             recomputed; MANUAL and no record update of the row; NEVER;  *)
 (*             schema changes; actions on other rows.                      *)
 (*   MAY       (both admitted) DEFAULT and a recalcDeps cell written with  *)
-(*             the value it had; MANUAL and an update that wrote only      *)
-(*             values the row had; a value supplied for a column that      *)
+(*             the value it had; MANUAL and an update that wrote a trigger *)
+(*             column with a value it may have had (an update that wrote   *)
+(*             only data cells, each with the value it had, changes no     *)
+(*             row: MUST NOT); a value supplied for a column that          *)
 (*             depends on itself (MUST if it differs from the old one).    *)
 (* Several MUST events of one bundle may be served by one evaluation (the  *)
 (* engine calculates at the end of the bundle): lo = 1, hi = their number. *)
@@ -144,6 +146,11 @@ RowChanged(cfg, t, vals) ==
   \/ \E c \in DataCols : DataChanged(t, vals, c)
   \/ \E i \in 1..Len(cfg) : Has(vals, cfg[i].id) /\ KnownChanged(t.cell[i], Val(vals, cfg[i].id))
 
+\* a record update that certainly changed no cell of the row: only data columns, each with the value it had
+RowSame(cfg, t, vals) ==
+  /\ \A c \in DataCols : Has(vals, c) => ~DataChanged(t, vals, c)
+  /\ \A i \in 1..Len(cfg) : ~Has(vals, cfg[i].id)
+
 UpdEvent(cfg, t, vals, j) ==
   LET kc     == cfg[j]
       c      == t.cell[j]
@@ -158,6 +165,7 @@ UpdEvent(cfg, t, vals, j) ==
             [] kc.when = DEFAULT -> IF depChg THEN EvMust(c, self)
                                     ELSE IF depTch THEN EvMay(c, self) ELSE c
             [] kc.when = MANUAL  -> IF RowChanged(cfg, t, vals) THEN EvMust(c, FALSE)
+                                    ELSE IF RowSame(cfg, t, vals) THEN c     \* "never otherwise"
                                     ELSE EvMay(c, FALSE)
 
 AddEvent(cfg, vals, j) ==
